@@ -10,4 +10,6 @@ func VerifForceOpen(cb CircuitBreaker, deadline uint64) {
 	b.nextRetryTimestampMs = deadline
 }
 
-func VerifDeadline(cb CircuitBreaker) uint64 { return cb.(*errorCountCircuitBreaker).nextRetryTimestampMs }
+func VerifDeadline(cb CircuitBreaker) uint64 {
+	return cb.(*errorCountCircuitBreaker).nextRetryTimestampMs
+}
